@@ -121,6 +121,8 @@ type Obs struct {
 	// NewSessions are the session ids that appeared in wamp.session.list.
 	NewSessions []uint64 `json:"new_sessions"`
 	ListOK      bool     `json:"list_ok"`
+	// SIDFromList: the session id learnt from the list because WELCOME never arrived.
+	SIDFromList uint64 `json:"sid_from_list,omitempty"`
 	// Got is wamp.session.get(sid) ("" when not called), GotErr its error URI.
 	Got    map[string]any `json:"got,omitempty"`
 	GotErr string         `json:"got_err,omitempty"`
